@@ -11,14 +11,14 @@ RELS = ['libs', 'defs', 'ports', 'cables', 'children', 'pins', 'wires']
 
 PROFILES = {
     # op kind -> weight
-    'structure': {'new': 10, 'create': 18, 'items': 6, 'add': 10, 'remove': 6, 'removefrom': 3, 'reorder': 3,
-                  'reorderwire': 2, 'connect': 12, 'disconnect': 5, 'disconnectfrom': 2, 'setref': 6, 'settop': 2,
+    'structure': {'new': 10, 'create': 18, 'items': 6, 'add': 10, 'remove': 6, 'removefrom': 6, 'reorder': 5,
+                  'reorderwire': 3, 'connect': 12, 'disconnect': 5, 'disconnectfrom': 2, 'setref': 6, 'settop': 2,
                   'setname': 4, 'delname': 1, 'dset': 3, 'ddel': 1, 'dpop': 1, 'bundle': 2, 'policy': 1},
     'naming': {'new': 10, 'create': 16, 'items': 1, 'add': 12, 'remove': 8, 'removefrom': 3, 'reorder': 1,
                'reorderwire': 0, 'connect': 1, 'disconnect': 0, 'disconnectfrom': 0, 'setref': 1, 'settop': 1,
                'setname': 14, 'delname': 4, 'dset': 12, 'ddel': 5, 'dpop': 5, 'bundle': 0, 'policy': 4},
-    'mirror': {'new': 8, 'create': 20, 'items': 10, 'add': 12, 'remove': 10, 'removefrom': 5, 'reorder': 2,
-               'reorderwire': 1, 'connect': 12, 'disconnect': 3, 'disconnectfrom': 1, 'setref': 12, 'settop': 4,
+    'mirror': {'new': 8, 'create': 20, 'items': 10, 'add': 12, 'remove': 10, 'removefrom': 7, 'reorder': 4,
+               'reorderwire': 2, 'connect': 12, 'disconnect': 3, 'disconnectfrom': 1, 'setref': 12, 'settop': 4,
                'setname': 1, 'delname': 0, 'dset': 1, 'ddel': 0, 'dpop': 0, 'bundle': 1, 'policy': 0},
 }
 
@@ -209,11 +209,14 @@ class Gen:
         kids = [self.w.index[id(x)] for x in getattr(self.w.objs[p], REL[rel][0])]
         cs = [x for x in kids if self.r.random() < 0.5]
         x = self.r.random()
-        if x < 0.15:
-            f = self.pick(REL_CHILD[rel])
+        if x < 0.35:
+            # refused bulk removal: mix own children with a foreign element (or only foreign ones)
+            f = self.pick(REL_CHILD[rel], lambda o: getattr(o, REL[rel][1]) is not self.w.objs[p])
             if f is not None:
+                if not cs and kids and self.r.random() < 0.8:
+                    cs = [self.r.choice(kids)]
                 cs.append(f)
-        elif x < 0.3 and cs:
+        elif x < 0.45 and cs:
             cs.append(cs[0])
         self.r.shuffle(cs)
         return ['removefrom', rel, str(p), str(len(cs))] + [str(c) for c in cs]
@@ -226,14 +229,17 @@ class Gen:
         kids = [self.w.index[id(x)] for x in getattr(self.w.objs[p], REL[rel][0])]
         self.r.shuffle(kids)
         x = self.r.random()
-        if x < 0.1 and kids:
+        if x < 0.08 and kids:
             kids = kids[1:]
-        elif x < 0.2 and kids:
+        elif x < 0.16 and kids:
             kids = kids + [kids[0]]
-        elif x < 0.3:
+        elif x < 0.24:
             f = self.pick(REL_CHILD[rel])
             if f is not None:
                 kids = kids[1:] + [f]
+        elif x < 0.36 and len(kids) >= 2:
+            # same length, only own members, one repeated in place of another
+            kids = kids[1:] + [kids[1]]
         return ['reorder', rel, str(p), str(len(kids))] + [str(c) for c in kids]
 
     def g_reorderwire(self):
@@ -246,12 +252,14 @@ class Gen:
             pins.append('S' + t[1:] if t[0] == 'O' else t)
         self.r.shuffle(pins)
         x = self.r.random()
-        if x < 0.1 and pins:
+        if x < 0.08 and pins:
             pins = pins[1:]
-        elif x < 0.2 and pins:
+        elif x < 0.16 and pins:
             pins = pins + [pins[0]]
-        elif x < 0.3:
+        elif x < 0.24:
             pins = pins[1:] + [self.pin_tok()]
+        elif x < 0.36 and len(pins) >= 2:
+            pins = pins[1:] + [pins[1]]
         return ['reorderwire', str(w), str(len(pins))] + pins
 
     def g_connect(self):
@@ -289,9 +297,12 @@ class Gen:
                     t = self.r.choice('OS') + t[1:]
                 ps.append(t)
         x = self.r.random()
-        if x < 0.15:
+        if x < 0.3:
+            if not ps and wire.pins and self.r.random() < 0.8:
+                t = self.w.tok_pin(self.r.choice(list(wire.pins)))
+                ps.append(self.r.choice('OS') + t[1:] if t[0] == 'O' else t)
             ps.append(self.pin_tok())
-        elif x < 0.3 and ps:
+        elif x < 0.4 and ps:
             ps.append(ps[0])
         return ['disconnectfrom', str(w), str(len(ps))] + ps
 
@@ -303,7 +314,15 @@ class Gen:
         r = self.r.random()
         if r < 0.2:
             return ['setref', str(x), '~']
-        if inst.reference is not None and r < 0.7:
+        if inst.reference is not None and r < 0.35:
+            # same number of ports, same first port, a later port of another width: refused half-way?
+            cur = inst.reference
+            shape = [len(p.pins) for p in cur.ports]
+            d = self.pick('definition', lambda o: len(o.ports) == len(shape) and len(shape) >= 2 and
+                          [len(p.pins) for p in o.ports] != shape and len(o.ports[0].pins) == shape[0], fallback=False)
+            if d is None:
+                d = self.pick('definition', lambda o: [len(p.pins) for p in o.ports] == shape)
+        elif inst.reference is not None and r < 0.75:
             cur = inst.reference
             shape = [len(p.pins) for p in cur.ports]
             d = self.pick('definition', lambda o: [len(p.pins) for p in o.ports] == shape)
